@@ -871,6 +871,10 @@ func c02(w *core.World, r *core.Report) {
 	}
 	r.Rule("R09.3", "inside a source transaction only EXEC requests a flush: a flush at any other command commits a resume position between MULTI and EXEC (shared with C09)", 6)
 	ruleTxnStateMachine(w, r)
+	r.Rule("R02.8", "transactional mode: no flush stores a resume position while a source transaction is open, other than the flush the state machine requests at EXEC: the position would cover the consumed MULTI, which the target has not received (all paths of one sender iteration; seed C02-13)", 2)
+	if c != nil {
+		ruleNoPositionInsideOpenTxn(w, r, c)
+	}
 }
 
 // batcher events of one path of sendFuncOnce
